@@ -178,7 +178,6 @@ def call_signature():
     op = ops.Call(sig, given, targs)
     sym.predicate("instantiation_arity_differs", len(inst.input) != len(sig.body.input) or len(inst.output) != len(sig.body.output))
     sym.check("call_num_out_is_instantiated", op.num_out == len(inst.output))
-    sym.check("call_function_port_after_value_inputs", op._function_port_offset() == len(inst.input))
     n = Node(3)
     k = op.port_kind(InPort(n, len(inst.input)))
     sym.check("call_static_port_is_function_kind", isinstance(k, tys.FunctionKind) and k.ty == sig)
@@ -359,7 +358,6 @@ def call_and_load_function_unbounded_rows():
     inst = tys.FunctionType(ii, io)
     call = ops.Call(sig, inst, [tys.SequenceArg([])])
     sym.check("u:call_num_out", call.num_out == len(io))
-    sym.check("u:call_function_port", call._function_port_offset() == len(ii))
     k = call.port_kind(InPort(Node(2), len(ii)))
     sym.check("u:call_static_port_kind", isinstance(k, tys.FunctionKind) and k.ty is sig)
     _port_in(call, ii, "u.call.in", True)
